@@ -481,6 +481,61 @@ def run(facts, prop=None):
                     if value_root(v) != ("param", 2):
                         problems.append("the value encoded is not the argument itself: %s" % fmt_expr(v)[:80])
                         break
+            # a putter writes its encoding and nothing else, on every path: each write it makes through `self` is the delegate it is built on or
+            # `put_slice(<the to_*_bytes of the value>)`, and no path returns without one (a `n == 0.0 => put_bytes(0, 8)` fast path writes the
+            # encoding of +0.0 for -0.0 as well)
+            if m.group(2) == "put" and b.kind in ("fn", "assoc_fn"):
+                from .flow import ExprBuilder as _EB, cfg_of as _cfg, canon as _canon, walk as _walk
+                ebp = _EB(b, facts, inline=False)
+                okw, badw = set(), []
+                dnames = {d for d, _ in s.delegates} | set(s.dead_delegates)
+                for bi_, t_ in b.calls():
+                    fn_ = callee(t_)
+                    if fn_ is None or b.blocks[bi_]["cleanup"] or not t_["args"]:
+                        continue
+                    nm_ = fn_["name"]
+                    if not (nm_.startswith("put") or nm_ in ("advance_mut", "chunk_mut")):
+                        continue
+                    r_loc = fn_.get("res") or {}
+                    if r_loc.get("local") and not fn_.get("trait"):
+                        # a private helper of the crate that is handed `self` and the encoding (`put_be_low_bytes(self, n.to_be_bytes(), nbytes)`)
+                        if any(isinstance(x, tuple) and x and x[0] == "call" and re.search(r"to_(be|le|ne)_bytes$", str(x[1]))
+                               for a_ in t_["args"][1:] for x in _walk(ebp.operand(a_, (bi_, len(b.blocks[bi_]["stmts"]))))):
+                            okw.add(bi_)
+                        continue
+                    a0 = _canon(ebp.operand(t_["args"][0], (bi_, len(b.blocks[bi_]["stmts"]))))
+                    while isinstance(a0, tuple) and a0 and a0[0] in ("ref", "deref"):
+                        a0 = a0[1]
+                    if a0 != ("param", 1):
+                        continue
+                    if nm_ in dnames:
+                        okw.add(bi_)
+                    elif nm_ == "put_slice" and len(t_["args"]) > 1 and any(
+                            isinstance(x, tuple) and x and x[0] == "call" and re.search(r"to_(be|le|ne)_bytes$", str(x[1])) for x in _walk(ebp.operand(t_["args"][1], (bi_, len(b.blocks[bi_]["stmts"]))))):
+                        okw.add(bi_)
+                    elif nm_ == "put_slice" and len(t_["args"]) > 1 and any(
+                            isinstance(x, tuple) and x and x[0] == "agg" and x[1] == "array" and len(x[2]) == 1 and value_root(x[2][0]) == ("param", 2)
+                            for x in _walk(ebp.operand(t_["args"][1], (bi_, len(b.blocks[bi_]["stmts"]))))):
+                        okw.add(bi_)            # one byte: `put_slice(&[n as u8])`
+                    else:
+                        badw.append(nm_)
+                if badw:
+                    problems.append("writes through %s besides the encoding of its argument" % ", ".join(sorted(set(badw))))
+                elif okw:
+                    cfgp = _cfg(b)
+                    seen_, st_ = {0}, [0] if 0 not in okw else []
+                    leak = False
+                    while st_ and not leak:
+                        x_ = st_.pop()
+                        if b.blocks[x_]["term"]["k"] == "return":
+                            leak = True
+                            break
+                        for y_ in cfgp.succ[x_]:
+                            if y_ not in seen_ and y_ not in okw and not b.blocks[y_]["cleanup"]:
+                                seen_.add(y_)
+                                st_.append(y_)
+                    if leak:
+                        problems.append("a path returns without writing the encoding")
             # value flow of a getter: what from_*_bytes / from_bits decoded is handed out as it is (casts, sign_extend and Result plumbing only)
             if m.group(2) == "get":
                 for tag, a in s.notes:
